@@ -135,20 +135,26 @@ class C15(Prop):
         "canonical_symbol_amino", "canonical_symbol_rna", "canonical_symbol_dna",
         "reverseComplement_twice", "generated_complement_involutive",
         "flushLeftInserts_spec", "markFragmentsOld_row_spec", "markFragmentsOld_rows", "generated_gap_missing_codes",
-        "wuss2ct_accepts_iff", "wuss2ct_involution", "wuss2ct_pairs_matched", "removeBroken_keeps_exactly", "removeBroken_rejects_unbalanced",
+        "wuss2ct_accepts_iff", "wuss2ct_involution", "wuss2ct_pairs_matched", "wuss2ct_of_labels", "ct2wuss_nested_labels", "nested_roundtrip", "wuss_ct_wuss_ct",
+        "removeBroken_keeps_exactly", "removeBroken_rejects_unbalanced",
         "ct2wuss_shape", "wussReverse_involutive")]
     claimed = True
-    technique = ("Lean 4 proof about an executable hand model of esl_msa.c / esl_wuss.c (in-place compaction loop = filter-by-mask on every aligned field, "
-                 "well-formedness invariants, mode-conversion and reverse-complement identities over alphabet tables regenerated from the tree, pair-table invariants) "
-                 "+ exact differential correspondence of the model with the ASan/UBSan-built code on random annotated alignments and WUSS strings")
-    level_text = ("Theorems (all alignments / masks / strings): the in-place compaction loop of esl_msa_ColumnSubset equals filter-by-mask, and on a well-formed alignment ColumnSubset applies the SAME "
-                  "column selection to rows, SS/SA/PP, every GR and GC line, SS_cons/SA_cons/PP_cons/RF/MM, without any out-of-bounds access, preserving well-formedness; rows keep their ungapped "
-                  "sequence when only gap columns go; SequenceSubset keeps rows/names/weights/accessions/descriptions/SS/SA/PP of retained sequences in order, copies per-column annotation and drops "
-                  "comments/GF/GC; Clone = identity; digital->text->digital = id and text->digital->text = canonical symbol map (whole regenerated tables by decide); ReverseComplement twice = id; "
-                  "esl_wuss_reverse involutive. The hand model is tied to the working tree by an exact field-by-field differential run; monitors state the property on the implementation's own dumps.")
-    level_note = ("Partial: DNA/RNA ColumnSubset theorem assumes the repaired alignment is well formed; SequenceSubset well-formedness proved without unparsed GS/GR (tables compared exactly by the run); "
-                  "WUSS pair-table theorems (wuss2ct involution, nested round trip, RemoveBrokenBasepairs pair set) are checked by monitors against an independent reader, not yet proved; "
-                  "esl_ct2wuss rb[] overflow is a known finding (model outcome `fault`). Trusted: Lean kernel + propext/Classical.choice/Quot.sound; model fidelity checked by the differential run.")
+    technique = ("Lean 4 proof about an executable hand model of esl_msa.c / esl_wuss.c (in-place compaction loop = filter-by-mask on every aligned field, well-formedness invariants, "
+                 "tag-table rebuild of SequenceSubset, mode-conversion and reverse-complement identities over alphabet tables regenerated from the tree, 27-stack WUSS reader = 27 Dyck recognisers, "
+                 "pair-table involution, base-pair repair loop, nested ct->WUSS->ct round trip through the imperative esl_ct2wuss model) "
+                 "+ exact differential correspondence of the model with the ASan/UBSan/LSan-built code on random annotated alignments, op chains and WUSS strings, with property monitors")
+    level_text = ("Theorems (all alignments / masks / strings, no size bound): the in-place compaction loop of esl_msa_ColumnSubset = filter-by-mask; on a well-formed alignment ColumnSubset applies the SAME "
+                  "column selection to rows, SS/SA/PP, every GR and GC line, SS_cons/SA_cons/PP_cons/RF/MM with no out-of-bounds access and preserves well-formedness - for DNA/RNA after the base-pair repair, "
+                  "which rewrites only SS lines and keeps well-formedness; MinimGaps/NoGaps masks remove exactly the documented columns (RF rule as coded) and rows keep their ungapped sequence; "
+                  "SequenceSubset keeps rows/names/weights/accessions/descriptions/SS/SA/PP of retained sequences at their rank, carries their GS/GR markup tag by tag, copies per-column annotation, drops comments/GF/GC, "
+                  "result well formed; Clone = identity; digital->text->digital = id, text->digital->text = canonical symbol map (whole regenerated tables by decide); ReverseComplement twice = id; "
+                  "FlushLeftInserts and MarkFragments_old keep every row's length and residues; esl_wuss2ct accepts iff all symbols legal and each of the 27 bracket languages balanced, its table is a "
+                  "fixed-point-free involution joining matching symbols; RemoveBrokenBasepairs keeps exactly the pairs with both partners retained (pair-table level); nested round trip wuss2ct(ct2wuss ct) = ct; "
+                  "esl_wuss_reverse involutive. The hand model is tied to the working tree by an exact field-by-field differential run; monitors restate the property on the implementation's own dumps.")
+    level_note = ("Partial: with pseudoknot letters the wuss->ct->wuss->ct round trip (hence the pair set of a re-encoded SS line after RemoveBrokenBasepairs on a pseudoknotted structure) is compared on every run "
+                  "against an independent WUSS reader but not proved; esl_ct2wuss may refuse (eslEINVAL, documented) a table whose greedy lettering needs more than A..Z; the round-trip theorem is conditional on "
+                  "esl_ct2wuss returning eslOK (no proof that it always does on nested tables). Trusted: Lean kernel + propext/Classical.choice/Quot.sound; fidelity of the hand model is checked, not proved, by the "
+                  "differential run; FlushLeftInserts is modelled as an append-only output (b <= a in the C loop); float thresholds of MarkFragments are evaluated by the driver (L0).")
     diverge_is_violation = True
     fault_is_output = True       # faults are classified by monitor() (known finding vs. new)
     trusted_base = ["hand model of esl_msa.c/esl_wuss.c tied by exact field-by-field differential run (h_msaops.c, ASan+UBSan build of the working tree)",
@@ -209,7 +215,10 @@ class C15(Prop):
     def rand_alignment(self, rng, big=False):
         mode = rng.choice(["text", "text", "rna", "rna", "dna", "amino"])
         nseq = rng.choice([1, 2, 3, 5, 8, rng.randrange(1, 31)])
-        alen = rng.choice([1, 2, 3, 5, 10, 30, rng.randrange(1, 12), rng.randrange(1, 60), rng.randrange(1, 201) if big else rng.randrange(1, 80)])
+        alen = rng.choice([1, 2, 3, 5, 10, 30, rng.randrange(1, 12), rng.randrange(1, 60), rng.randrange(1, 80)])
+        if big:
+            alen = rng.choice([rng.randrange(100, 201), rng.randrange(150, 201), 200, 199, 128, 129])
+            nseq = rng.choice([1, 2, 3, rng.randrange(1, 9), rng.randrange(1, 31) if rng.random() < 0.2 else 4])
         if mode == "amino": res = "ACDEFGHIKLMNPQRSTVWYBJZOUX"
         elif mode == "dna": res = "ACGTRYMKSWHBVDN"
         elif mode == "rna": res = "ACGURYMKSWHBVDN"
@@ -269,14 +278,15 @@ class C15(Prop):
         if l != "col": ops.append(l)
         for k in range(6):
             if rng.random() < 0.15: ops.append("cut i=%d v=%s" % (k, fbits(rng.choice([25.0, 0.0, -3.5, rng.random() * 100]))))
-        for _ in range(rng.choice([0, 0, 1, 2])): ops.append("comment v=" + hx(rs() + " " + rs()))
-        for _ in range(rng.choice([0, 0, 1, 3])): ops.append("gf tag=%s v=%s" % (hx(rs(2, string.ascii_uppercase)), hx(rs())))
-        gstags = [rs(2, string.ascii_uppercase) for _ in range(rng.choice([0, 0, 1, 2, 3]))]
+        many = rng.random() < 0.04      # allocation boundaries of the unparsed markup (16 / 17 / 32 / 33 lines, many tags)
+        for _ in range(rng.choice([15, 16, 17, 32, 33, 40]) if many else rng.choice([0, 0, 1, 2])): ops.append("comment v=" + hx(rs() + " " + rs()))
+        for _ in range(rng.choice([15, 16, 17, 32, 33, 40]) if many and rng.random() < 0.7 else rng.choice([0, 0, 1, 3])): ops.append("gf tag=%s v=%s" % (hx(rs(2, string.ascii_uppercase)), hx(rs())))
+        gstags = list(dict.fromkeys(rs(2, string.ascii_uppercase) for _ in range(rng.choice([4, 5, 6, 8]) if many else rng.choice([0, 0, 1, 2, 3]))))
         for t in gstags:
             for i in range(nseq):
                 for _ in range(rng.choice([0, 1, 1, 2]) if rng.random() < 0.5 else 0): ops.append("gs tag=%s i=%d v=%s" % (hx(t), i, hx(rs())))
-        for _ in range(rng.choice([0, 0, 1, 2])): ops.append("gc tag=%s v=%s" % (hx(rs(3)), hx(rs(alen))))
-        grtags = [rs(3) for _ in range(rng.choice([0, 0, 1, 2, 3]))]
+        for t in list(dict.fromkeys(rs(3) for _ in range(rng.choice([4, 5, 7]) if many else rng.choice([0, 0, 1, 2])))): ops.append("gc tag=%s v=%s" % (hx(t), hx(rs(alen))))
+        grtags = list(dict.fromkeys(rs(3) for _ in range(rng.choice([4, 5, 6, 8]) if many else rng.choice([0, 0, 1, 2, 3]))))
         order = [(t, i) for t in grtags for i in range(nseq) if rng.random() < 0.5]
         rng.shuffle(order)
         for t, i in order: ops.append("gr tag=%s i=%d v=%s" % (hx(t), i, hx(rs(alen))))
@@ -321,12 +331,12 @@ class C15(Prop):
                 ops += [rng.choice(["clone", "copy"]), "dump w=b", "validate w=b"]
                 # mutate A afterwards: B must not follow
                 ops += ["colsubset mask=" + cmask(alen), "dump", "dump w=b"]
-            elif r < 0.82:
+            elif r < 0.84:
                 if digital: ops += ["textize", "dump", "validate", "digitize abc=" + mode, "dump"]
                 else:
                     ops += ["digitize abc=" + (mode if mode != "text" and rng.random() < 0.8 else rng.choice(["rna", "dna", "amino"])), "dump", "validate"]
                     if mode == "text": break
-            elif r < 0.88:
+            elif r < 0.89:
                 if mode in ("rna", "dna") and digital or rng.random() < 0.15: ops += ["revcomp", "dump", "validate", "revcomp", "dump"]
             elif r < 0.93:
                 if digital: ops += ["flushleft", "dump", "validate"]
@@ -383,10 +393,16 @@ class C15(Prop):
         rng = ctx.rng
         quick = ctx.tier == "quick"
         out = []
-        n_msa = 4000 if quick else 60000
+        n_msa = 5000 if quick else 60000
         n_wuss = 1500 if quick else 30000
-        for i in range(n_msa): out.append(self.msa_case(rng, i, big=(i % 6 == 0)))
+        for i in range(n_msa): out.append(self.msa_case(rng, i, big=(i % 5 == 0)))
         for i in range(n_wuss): out.append(self.wuss_case(rng, i, 300 if (quick and i % 15) else 2000))
+        hist = {}
+        for c in out:
+            for o in c["ops"]:
+                k = o.split()[0]
+                if k not in ("sq", "new", "col", "cut", "comment", "gf", "gs", "gc", "gr", "dump", "validate"): hist[k] = hist.get(k, 0) + 1
+        self._hist = hist
         return out
 
     # ------------------------------------------------------------------ monitors
@@ -625,7 +641,8 @@ class C15(Prop):
         return None
 
     def extra_evidence(self, ctx):
-        return {"generator": "random annotated alignments 1-30 x 1-200 (text/RNA/DNA/amino; RF, SS_cons nested+pseudoknotted+broken, per-seq SS/SA/PP, GC/GR/GS/GF, weights, accessions) x op chains; WUSS strings to length 2000"}
+        return {"operation_histogram": getattr(self, "_hist", {}),
+                "generator": "random annotated alignments 1-30 x 1-200 (text/RNA/DNA/amino; RF, SS_cons nested+pseudoknotted+broken, per-seq SS/SA/PP, GC/GR/GS/GF, weights, accessions) x op chains; WUSS strings to length 2000"}
 
 
 def op_name(w): return " ".join(w)
